@@ -25,6 +25,13 @@ def apis():
                                           proposalCSampler=lambda c: c + np.random.uniform(-1, 1), randomSeed=seed)
         return [s.getSample() for _ in range(3)]
 
+    start_arr = np.array([0.25])        # ONE float64 start-point array of the caller, handed to every sampler built below
+
+    def mh_arr(seed):
+        s = rpm.MetropolisHastingsSampler(initialVal=start_arr, targetPdf=lambda x: float(np.exp(-x[0] ** 2 / 2)),
+                                          proposalCSampler=lambda c: c + np.random.uniform(-1, 1), randomSeed=seed)
+        return [s.getSample() for _ in range(3)]
+
     def au(seed):
         s = rpm.AuModifiedMHSampler(initialVal=[0.0, 0.5], targetPdf=[lambda x: float(np.exp(-x * x / 2))] * 2,
                                     proposalCSampler=[lambda c: c + np.random.uniform(-1, 1)] * 2, randomSeed=seed)
@@ -41,6 +48,7 @@ def apis():
                                                                                                             freqBandwidth=2.0, randomSeed=seed)],
         'NatafTransformation.getSample': lambda seed: list(nat(seed).getSample()),
         'MetropolisHastingsSampler': mh,
+        'MetropolisHastingsSampler(start point = the same float64 array in every call)': mh_arr,
         'AuModifiedMHSampler': au,
         'subsetSimulation': lambda seed: repr(rrm.subsetSimulation(2, g, [stats.norm(), stats.norm()], np.eye(2), 20, 3, probLevel=0.5,
                                                                   randomSeed=seed)),
